@@ -503,7 +503,9 @@ func (w *worldA) tweak(r *simrt.Rand, s *AScenario, end int) {
 	case "c06":
 		nk := 1 + r.Intn(3)
 		s.Keys = [][]string{{"app"}, {"app", "pid"}, {"app", "level", "pid"}}[nk-1]
-		s.Tag = [][]string{{"t.$app", "x-${app[:2]}"}, {"t.$app.$pid", "x-${app[:2]}-$pid", "$app$pid"}, {"t.$app.$level.$pid", "$pid-${app[-1:]}-$level"}}[nk-1][r.Intn(2)]
+		// (single-variable templates too: the tag builder returns the key string itself for them, without copying)
+		tagOpts := [][]string{{"t.$app", "x-${app[:2]}", "$app", "${app[:3]}"}, {"t.$app.$pid", "x-${app[:2]}-$pid", "$app$pid"}, {"t.$app.$level.$pid", "$pid-${app[-1:]}-$level"}}[nk-1]
+		s.Tag = tagOpts[r.Intn(len(tagOpts))]
 		s.KeyTuples = nil
 		// colliding concatenations and separators first, then random picks from the alphabet
 		seeds := [][]string{{"ab", "c"}, {"a", "bc"}, {"a,b", "c"}, {"a", "b,c"}, {"", "a"}, {"a", ""}, {",", ""}, {"", ","}, {"a/b", "c"}, {"a", "b"}}
@@ -549,6 +551,38 @@ func (w *worldA) tweak(r *simrt.Rand, s *AScenario, end int) {
 		s.HealAtMs = 0
 		if s.Profile == "c07big" {
 			s.MsgMax = 1024 * 1024
+		}
+	case "c11big":
+		// the shipped limits: 7 MiB chunks, 1 MiB messages; a few records of hundreds of KiB so that single chunks pass the
+		// 1 MiB initial capacity of the chunk and message buffers (state that only a large chunk creates)
+		s.ChunkMaxBytes, s.ChunkMaxRecs = 7*1024*1024, 0
+		s.MsgMax = 1024 * 1024
+		s.MemCap = r.Range(2, 5)
+		s.Upstream, s.Events, s.HealAtMs = nil, nil, 0
+		if len(s.Clients) > 2 {
+			s.Clients = s.Clients[:2]
+		}
+		big := 0
+		for ci := range s.Clients {
+			if len(s.Clients[ci].Bursts) > 4 {
+				s.Clients[ci].Bursts = s.Clients[ci].Bursts[:4]
+			}
+			for bi := range s.Clients[ci].Bursts {
+				bu := &s.Clients[ci].Bursts[bi]
+				bu.CutAt = 0
+				if len(bu.Recs) > 6 {
+					bu.Recs = bu.Recs[:6]
+				}
+				for ri := range bu.Recs {
+					rec := &bu.Recs[ri]
+					rec.Key = 0 // one pipeline, so that the bytes add up in one chunk
+					rec.Multi, rec.Drop = 0, false
+					if big < 12 && r.Bool(60) {
+						rec.Fill = 150_000 + r.Intn(500_000)
+						big++
+					}
+				}
+			}
 		}
 	case "c11":
 		s.ChunkMaxBytes = []int{200, 300, 600, 2000, 65536}[r.Intn(5)]
